@@ -230,10 +230,12 @@ def load_known(pid):
     return [e for e in kf["findings"] if pid in e["properties"]]
 
 
-def match_known(sig, known):
+def match_known(sig, known, tool=None):
     for e in known:
         if e["status"] != "open":
             continue
+        if tool and e.get("tool") and e["tool"] != tool:
+            continue     # signature namespaces are per search tool (xmloracle N02 is not htmloracle N02)
         for pat in e.get("signatures", []):
             if sig == pat or (pat.endswith("*") and sig.startswith(pat[:-1])):
                 return e
@@ -310,11 +312,11 @@ class Check:
                                   "distinct_nontrivial": res.get("distinct_nontrivial", 0), "not_judged": res.get("not_judged", 0),
                                   "violations": len(res.get("violations", [])), "histograms": res.get("histograms"), "extra": res.get("extra")})
         for v in res.get("violations", []):
-            self.violation(v, sub or tool)
+            self.violation(v, sub or tool, binary=tool)
         return res, d
 
-    def violation(self, v, tool):
-        e = match_known(v.get("signature", ""), self.known)
+    def violation(self, v, tool, binary=None):
+        e = match_known(v.get("signature", ""), self.known, binary)
         v = dict(v, tool=tool)
         if e is not None:
             self.known_hits.setdefault(e["id"], (e, v))
